@@ -1114,7 +1114,12 @@ impl<'a> GeneratorState<'a> {
 
     fn generate_strobe_statement(&mut self, expr: &Expr, pos: usize) -> Result<(), Error> {
         match expr {
-            Expr::Identifier(name, _) => {
+            Expr::Identifier(name, sub) => {
+                if !matches!(**sub, Expr::Nothing) {
+                    return Err(self
+                        .compiler_state
+                        .syntax_error("No subscript allowed in strobe", pos));
+                }
                 let v = self.compiler_state.find_variable(name, pos)?;
                 match v.var_type {
                     VariableType::CharPtr => {
